@@ -299,10 +299,12 @@ def main():
     repo = sys.argv[1] if len(sys.argv) > 1 else "/repo"
     outp = sys.argv[2] if len(sys.argv) > 2 else "GenFin.lean"
     out = ["/- GENERATED by translator/finals.py from tevec/src/agg.rs and tevec/src/map.rs — do not edit. -/",
-           "import Tv.GenPrelude", "import Tv.GenAgg", "import Tv.GenMap", "set_option linter.unusedVariables false",
+           "import Tv.GenPrelude", "import Tv.GenAgg", "import Tv.GenMap", "import Tv.GenRank",
+           "set_option linter.unusedVariables false",
            "namespace Tv.GenFin", "open Tv.Gen", "",
            "/-- `WinsorizeMethod` -/", "inductive WinMethod where", "  | quantile | median | sigma",
-           "deriving DecidableEq, Repr", ""]
+           "deriving DecidableEq, Repr", "",
+           "/-- `CorrMethod` -/", "inductive CorrMethod where", "  | pearson | spearman", "deriving DecidableEq, Repr", ""]
     try:
         src = open(os.path.join(repo, "tevec/src/agg.rs"), encoding="utf-8", errors="replace").read()
         src = re.sub(r"//[^\n]*", "", src.split("#[cfg(test)]")[0])
@@ -322,6 +324,14 @@ def main():
         reason = (("" if isinstance(ex, Unsupported) else type(ex).__name__ + ": ") + str(ex)).replace('"', "'")
         out.append(f"\nnamespace winsorize\n/- UNPARSED: {reason} -/\ndef parsed : Bool := false\n"
                    f"def reason : String := \"{reason}\"\nend winsorize")
+    try:
+        sig, body = M.fn_src(src, "AggValidFinal", "vcorr")
+        out.append("")
+        out.append(translate_vcorr(sig, body))
+    except Exception as ex:
+        reason = (("" if isinstance(ex, Unsupported) else type(ex).__name__ + ": ") + str(ex)).replace('"', "'")
+        out.append(f"\nnamespace vcorr\n/- UNPARSED: {reason} -/\ndef parsed : Bool := false\n"
+                   f"def reason : String := \"{reason}\"\nend vcorr")
     out.append("\nend Tv.GenFin")
     new = "\n".join(out) + "\n"
     try:
@@ -424,6 +434,9 @@ class WinCps(Q.Cps):
             if ta == "F" and tb == "Rat":
                 fn = {"<": "fLt", "<=": "fLe", ">": "fGt", ">=": "fGe"}[e[1]]
                 return f"({fn} {a} {b})", "Bool", wa + wb
+            if ta == "Rat" and tb == "F":        # `EPS < var`: the mirrored comparison
+                fn = {"<": "fGt", "<=": "fGe", ">": "fLt", ">=": "fLe"}[e[1]]
+                return f"({fn} {b} {a})", "Bool", wa + wb
         return super().ex(e, env)
 
     def result(self, e, env):
@@ -472,6 +485,104 @@ def translate_winsorize(sig, body_src):
          indent(txt, 2),
          "def parsed : Bool := true",
          "end winsorize"]
+    return "\n".join(L)
+
+
+# ---------------------------------------------------------------------------------------------
+# vcorr (tevec/src/agg.rs): Pearson, or Pearson of the average ranks (Spearman)
+# ---------------------------------------------------------------------------------------------
+CORR_ARMS = {"CorrMethod::Pearson": ".pearson", "CorrMethod::Spearman": ".spearman", "Pearson": ".pearson", "Spearman": ".spearman"}
+
+
+class CorrCps(Q.Cps):
+    """`vcorr`: the result `T::Cast<f64>` is `Option (Option Rat)` (`none` = panic, `some none` = NaN);
+    `self` / `other` are the lists `xs` / `ys`, `X.vrank::<Vec<f64>, _>(pct, rev)` is the function
+    regenerated by ranks.py (its write-once slots flattened to floats), `X.vcorr_pearson(Y, mp)` the
+    one regenerated by aggs.py"""
+    PANIC = "none"
+
+    def flat(self, t, ty):
+        if ty == "OutL":
+            return f"({t}.map Option.join)"
+        if ty == "ListE":
+            return t
+        raise Unsupported(f"series of type {ty}")
+
+    def ex(self, e, env):
+        k = e[0]
+        if k == "path" and e[1] in ("true", "false") and e[1] not in env:
+            return e[1], "Bool", []
+        if k == "bin" and e[1] == "/":
+            a, ta, wa = self.ex(e[2], env)
+            b, tb, wb = self.ex(e[3], env)
+            if ta == tb == "Nat":
+                return f"({a} / {b})", "Nat", wa + wb
+        if k == "mcall":
+            recv, name, args = e[1], e[2], e[3]
+            if recv in (("path", "self"), ("path", "other")) and name == "titer" and not args:
+                return ("xs" if recv[1] == "self" else "ys"), "ListE", []
+            if recv in (("path", "self"), ("path", "other")) and name == "len" and not args:
+                return ("xs" if recv[1] == "self" else "ys") + ".length", "Nat", []
+            if recv in (("path", "self"), ("path", "other")) and name == "vrank" and len(args) == 2:
+                a, ta, wa = self.ex(args[0], env)
+                b, tb, wb = self.ex(args[1], env)
+                if ta != "Bool" or tb != "Bool":
+                    raise Unsupported("vrank arguments")
+                self.nk += 1
+                v = f"r__{self.nk}"
+                src = "xs" if recv[1] == "self" else "ys"
+                call = f"(GenRank.vrank.run S {src} {a} {b})"
+                return v, "OutL", wa + wb + [lambda body, call=call, v=v: f"match {call} with\n| none => none\n| some {v} =>\n{indent(body)}"]
+            if name == "vcorr_pearson" and len(args) == 2:
+                x, tx, wx = self.ex(recv, env)
+                y, ty_, wy = self.ex(args[0], env)
+                m, tm, wm = self.ex(args[1], env)
+                if tm != "Nat":
+                    raise Unsupported("min_periods")
+                return f"(GenAgg.vcorr_pearson.run sqrt {self.flat(x, tx)} {self.flat(y, ty_)} {m})", "F", wx + wy + wm
+            r, tr, w = self.ex(recv, env)
+            if tr == "OptNat" and name == "unwrap_or" and len(args) == 1:
+                a, ta, wa = self.ex(args[0], env)
+                if ta != "Nat":
+                    raise Unsupported("unwrap_or operand")
+                return f"({r}.getD {a})", "Nat", w + wa
+        return super().ex(e, env)
+
+    def branch(self, e, env, k):
+        if e[0] == "match":
+            scrut, arms = e[1], e[2]
+            st, sty, sw = self.ex(scrut, env)
+            if sty == ("enum", "CorrMethod"):
+                out = [f"match {st} with"]
+                for pats, body in arms:
+                    if len(pats) != 1 or pats[0] not in CORR_ARMS:
+                        raise Unsupported(f"match arm {pats}")
+                    b = self.seq(body[1], body[2], env, k) if body[0] == "block" else self.seq([], body, env, k)
+                    out.append(f"| {CORR_ARMS[pats[0]]} =>\n{indent(b)}")
+                return self.wrap(sw, "\n".join(out))
+        return super().branch(e, env, k)
+
+
+def translate_vcorr(sig, body_src):
+    body_src = re.sub(r"#\[[^\]]*\]", "", body_src)          # `#[cfg(feature = "map")]` on a match arm
+    blk = C.P(C.tokenize(body_src)).block()
+    if (not re.search(r"other\s*:\s*&V2", sig) or not re.search(r"min_periods\s*:\s*Option<usize>", sig)
+            or not re.search(r"method\s*:\s*CorrMethod", sig)):
+        raise Unsupported("signature of vcorr")
+    em = CorrCps()
+
+    def final(v, ty, env):
+        if ty == "F":
+            return f"some {v}"
+        raise Unsupported(f"function value of type {ty}")
+    txt = em.seq(blk[1], blk[2], {"min_periods": "OptNat", "method": ("enum", "CorrMethod")}, final)
+    L = ["namespace vcorr",
+         "/-- `vcorr` of tevec/src/agg.rs, in source order; `none` = panic, `some none` = NaN -/",
+         "def run (sqrt : Rat → Rat) (S : C12.Std) (xs ys : List (Option Rat)) (min_periods : Option Nat)",
+         "    (method : CorrMethod) : Option (Option Rat) :=",
+         indent(txt, 2),
+         "def parsed : Bool := true",
+         "end vcorr"]
     return "\n".join(L)
 
 
